@@ -422,7 +422,11 @@ def finish(b, extra_cov=None):
 
 def write_evidence(b, nviol, nknown, extra_cov=None):
     mod = b.mod
-    os.makedirs(os.path.join(VERIF, "evidence"), exist_ok=True)
+    # evidence describes runs against /repo itself: a run against a scratch copy (VERIF_REPO: seeded changes, reverted
+    # fixes) or a calibration batch (VERIF_RUNS) writes its report under out/ instead
+    scratch = bool(os.environ.get("VERIF_REPO")) or bool(os.environ.get("VERIF_RUNS"))
+    ev_dir = os.path.join(OUT, "evidence_scratch") if scratch else os.path.join(VERIF, "evidence")
+    os.makedirs(ev_dir, exist_ok=True)
     cov = {
         "evaluations": b.n,
         "distinct_nontrivial": len(b.shapes_nontrivial),
@@ -451,7 +455,7 @@ def write_evidence(b, nviol, nknown, extra_cov=None):
     doc = {"property_id": mod.PROP, "tier": b.tier, "seed": b.seed, "level": mod.LEVEL,
            "coverage": cov, "assumptions": getattr(mod, "ASSUMPTIONS", []),
            "wall_s": round(b.wall, 2), "violations": nviol}
-    path = os.path.join(VERIF, "evidence", "%s.json" % mod.PROP)
+    path = os.path.join(ev_dir, "%s.json" % mod.PROP)
     tmp = path + ".tmp%d" % os.getpid()
     with open(tmp, "w") as fh:
         json.dump(doc, fh, indent=1, sort_keys=True, default=str)
